@@ -26,7 +26,7 @@ type extCodec[V any] struct {
 	inputs    func(x *Ctx, emit func(b []byte)) // extra byte-string inputs for the unmarshal kind
 }
 
-func writeUnitRes(o *Toks, panicked bool, err error) {
+func extWriteUnitRes(o *Toks, panicked bool, err error) {
 	switch {
 	case panicked:
 		o.Panic()
@@ -38,7 +38,7 @@ func writeUnitRes(o *Toks, panicked bool, err error) {
 }
 
 // c17.X.m: Marshal(v); if ok, Unmarshal of the result into a receiver holding prev.
-func genMarshal[V any](cd extCodec[V]) func(x *Ctx) {
+func extGenMarshal[V any](cd extCodec[V]) func(x *Ctx) {
 	return func(x *Ctx) {
 		cd.values(x, func(v V) {
 			x.Case(func(c *Case) {
@@ -64,7 +64,7 @@ func genMarshal[V any](cd extCodec[V]) func(x *Ctx) {
 				var uerr error
 				p := try(func() { uerr = cd.unmarshal(&recv, out) })
 				c.O.Some()
-				writeUnitRes(&c.O, p, uerr)
+				extWriteUnitRes(&c.O, p, uerr)
 				cd.write(&c.O, recv)
 			})
 		})
@@ -72,7 +72,7 @@ func genMarshal[V any](cd extCodec[V]) func(x *Ctx) {
 }
 
 // c17.X.u: a receiver holding prev decodes hist[0], hist[1], … and then the input under test.
-func genUnmarshal[V any](cd extCodec[V]) func(x *Ctx) {
+func extGenUnmarshal[V any](cd extCodec[V]) func(x *Ctx) {
 	return func(x *Ctx) {
 		one := func(mk func(c *Case) (prev V, hist [][]byte, raw []byte)) {
 			x.Case(func(c *Case) {
@@ -88,7 +88,7 @@ func genUnmarshal[V any](cd extCodec[V]) func(x *Ctx) {
 				in := cloneBytes(raw)
 				var err error
 				p := try(func() { err = cd.unmarshal(&recv, in) })
-				writeUnitRes(&c.O, p, err)
+				extWriteUnitRes(&c.O, p, err)
 				cd.write(&c.O, recv)
 				switch {
 				case len(raw) < cd.size:
@@ -167,18 +167,18 @@ func genUnmarshal[V any](cd extCodec[V]) func(x *Ctx) {
 	}
 }
 
-// edge12 are the 12-bit values whose nibbles exercise every position of the 12+12 bit split.
-var edge12 = []int{0, 1, 2, 0xF, 0x10, 0x11, 0xF0, 0xFF, 0x100, 0x101, 0x123, 0x555, 0x7FF, 0x800, 0xAAA, 0xABC,
+// extEdge12 are the 12-bit values whose nibbles exercise every position of the 12+12 bit split.
+var extEdge12 = []int{0, 1, 2, 0xF, 0x10, 0x11, 0xF0, 0xFF, 0x100, 0x101, 0x123, 0x555, 0x7FF, 0x800, 0xAAA, 0xABC,
 	0xF00, 0xF0F, 0xFF0, 0xFFE, 0xFFF}
 
 // interesting 64-bit patterns
-var edge64 = []uint64{0, 1, 0xFF, 0x100, 0x7FFFFFFF, 0x80000000, 0xFFFFFFFF, 0x100000000, 0x0102030405060708,
+var extEdge64 = []uint64{0, 1, 0xFF, 0x100, 0x7FFFFFFF, 0x80000000, 0xFFFFFFFF, 0x100000000, 0x0102030405060708,
 	0x8000000000000000, 0x7FFFFFFFFFFFFFFF, 0xFFFFFFFFFFFFFFFE, 0xFFFFFFFFFFFFFFFF, 0xFF00FF00FF00FF00, 0x00FF00FF00FF00FF}
 
-func randU64(r *Rand) uint64 {
+func extRandU64(r *Rand) uint64 {
 	switch r.Intn(4) {
 	case 0:
-		return edge64[r.Intn(len(edge64))]
+		return extEdge64[r.Intn(len(extEdge64))]
 	case 1:
 		return r.U64() >> uint(r.Intn(64))
 	default:
@@ -186,7 +186,7 @@ func randU64(r *Rand) uint64 {
 	}
 }
 
-var audioCodec = extCodec[rtp.AudioLevelExtension]{
+var extAudioCodec = extCodec[rtp.AudioLevelExtension]{
 	size: 1, maxLen: 3,
 	write:     func(t *Toks, v rtp.AudioLevelExtension) { t.Nat(int(v.Level)).Bool(v.Voice) },
 	marshal:   func(v rtp.AudioLevelExtension) ([]byte, error) { return v.Marshal() },
@@ -213,7 +213,7 @@ var audioCodec = extCodec[rtp.AudioLevelExtension]{
 	},
 }
 
-var tccCodec = extCodec[rtp.TransportCCExtension]{
+var extTccCodec = extCodec[rtp.TransportCCExtension]{
 	size: 2, maxLen: 4,
 	write:     func(t *Toks, v rtp.TransportCCExtension) { t.Nat(int(v.TransportSequence)) },
 	marshal:   func(v rtp.TransportCCExtension) ([]byte, error) { return v.Marshal() },
@@ -237,7 +237,7 @@ var tccCodec = extCodec[rtp.TransportCCExtension]{
 	},
 }
 
-var playoutCodec = extCodec[rtp.PlayoutDelayExtension]{
+var extPlayoutCodec = extCodec[rtp.PlayoutDelayExtension]{
 	size: 3, maxLen: 5,
 	write:     func(t *Toks, v rtp.PlayoutDelayExtension) { t.Nat(int(v.MinDelay)).Nat(int(v.MaxDelay)) },
 	marshal:   func(v rtp.PlayoutDelayExtension) ([]byte, error) { return v.Marshal() },
@@ -255,7 +255,7 @@ var playoutCodec = extCodec[rtp.PlayoutDelayExtension]{
 		// out of range on either side, around the boundary and far from it
 		oor := []int{0x1000, 0x1001, 0x1FFF, 0x2000, 0x8000, 0xF000, 0xFFFF}
 		for _, a := range oor {
-			for _, b := range append(append([]int{}, edge12...), oor...) {
+			for _, b := range append(append([]int{}, extEdge12...), oor...) {
 				pd(a, b)
 				pd(b, a)
 			}
@@ -268,7 +268,7 @@ var playoutCodec = extCodec[rtp.PlayoutDelayExtension]{
 			}
 			return
 		}
-		for _, e := range edge12 { // all 12-bit edges against every value of the other field
+		for _, e := range extEdge12 { // all 12-bit edges against every value of the other field
 			for o := 0; o < 4096; o++ {
 				pd(e, o)
 				pd(o, e)
@@ -292,7 +292,7 @@ var playoutCodec = extCodec[rtp.PlayoutDelayExtension]{
 	},
 }
 
-var absSendCodec = extCodec[rtp.AbsSendTimeExtension]{
+var extAbsSendCodec = extCodec[rtp.AbsSendTimeExtension]{
 	size: 3, maxLen: 5,
 	write:     func(t *Toks, v rtp.AbsSendTimeExtension) { t.U64(v.Timestamp) },
 	marshal:   func(v rtp.AbsSendTimeExtension) ([]byte, error) { return v.Marshal() },
@@ -301,11 +301,11 @@ var absSendCodec = extCodec[rtp.AbsSendTimeExtension]{
 		if r.Bool() {
 			return rtp.AbsSendTimeExtension{Timestamp: r.U64() & 0xFFFFFF}
 		}
-		return rtp.AbsSendTimeExtension{Timestamp: randU64(r)}
+		return rtp.AbsSendTimeExtension{Timestamp: extRandU64(r)}
 	},
 	values: func(x *Ctx, emit func(rtp.AbsSendTimeExtension)) {
 		ts := func(t uint64) { emit(rtp.AbsSendTimeExtension{Timestamp: t}) }
-		for _, e := range edge64 { // wider than 24 bits: only the low 24 bits are sent
+		for _, e := range extEdge64 { // wider than 24 bits: only the low 24 bits are sent
 			ts(e)
 			ts(e<<24 | 0xABCDEF)
 		}
@@ -322,8 +322,8 @@ var absSendCodec = extCodec[rtp.AbsSendTimeExtension]{
 				ts(b<<8 | 0xFF00FF)
 				ts(b | 0xFFFF00)
 			}
-			for _, a := range edge12 {
-				for _, b := range edge12 {
+			for _, a := range extEdge12 {
+				for _, b := range extEdge12 {
 					ts(uint64(a)<<12 | uint64(b))
 				}
 			}
@@ -351,16 +351,16 @@ var absSendCodec = extCodec[rtp.AbsSendTimeExtension]{
 	},
 }
 
-func randCapture(r *Rand) rtp.AbsCaptureTimeExtension {
-	v := rtp.AbsCaptureTimeExtension{Timestamp: randU64(r)}
+func extRandCapture(r *Rand) rtp.AbsCaptureTimeExtension {
+	v := rtp.AbsCaptureTimeExtension{Timestamp: extRandU64(r)}
 	if r.Intn(3) != 0 {
-		o := int64(randU64(r))
+		o := int64(extRandU64(r))
 		v.EstimatedCaptureClockOffset = &o
 	}
 	return v
 }
 
-var absCaptureCodec = extCodec[rtp.AbsCaptureTimeExtension]{
+var extAbsCaptureCodec = extCodec[rtp.AbsCaptureTimeExtension]{
 	size: 8, maxLen: 18,
 	write: func(t *Toks, v rtp.AbsCaptureTimeExtension) {
 		t.U64(v.Timestamp)
@@ -379,11 +379,11 @@ var absCaptureCodec = extCodec[rtp.AbsCaptureTimeExtension]{
 		}
 		return r.Unmarshal(b)
 	},
-	randVal: randCapture,
+	randVal: extRandCapture,
 	values: func(x *Ctx, emit func(rtp.AbsCaptureTimeExtension)) {
-		for _, t := range edge64 {
+		for _, t := range extEdge64 {
 			emit(rtp.AbsCaptureTimeExtension{Timestamp: t})
-			for _, o := range edge64 {
+			for _, o := range extEdge64 {
 				o := int64(o)
 				emit(rtp.AbsCaptureTimeExtension{Timestamp: t, EstimatedCaptureClockOffset: &o})
 			}
@@ -430,22 +430,22 @@ var absCaptureCodec = extCodec[rtp.AbsCaptureTimeExtension]{
 // ---------------------------------------------------------------------------------------------
 
 const (
-	nsPerS    = int64(1000000000)
-	eraEndNs  = (int64(1)<<32 - 2208988800) * 1000000000 // first ns after the 1900 NTP era
-	wrap24Ns  = 64 * nsPerS                              // period of the 24-bit abs-send-time field
-	maxDelay  = 64*nsPerS - 3815                         // largest whole-ns delay below 64 s - 2^-18 s
-	maxOffset = (int64(1) << 31) * 1000000000            // offsets of magnitude below this are in range
+	extNsPerS    = int64(1000000000)
+	extEraEndNs  = (int64(1)<<32 - 2208988800) * 1000000000 // first ns after the 1900 NTP era
+	extWrap24Ns  = 64 * extNsPerS                           // period of the 24-bit abs-send-time field
+	extMaxDelay  = 64*extNsPerS - 3815                      // largest whole-ns delay below 64 s - 2^-18 s
+	extMaxOffset = (int64(1) << 31) * 1000000000            // offsets of magnitude below this are in range
 )
 
-// gridNs returns the first whole nanosecond (within a second) at or after the k-th point of the
+// extGridNs returns the first whole nanosecond (within a second) at or after the k-th point of the
 // 2^-18 s grid of the abs-send-time field.
-func gridNs(k int64) int64 { // ceil(k * 1e9 / 2^18)
-	return (k*nsPerS + (1<<18 - 1)) >> 18
+func extGridNs(k int64) int64 { // ceil(k * 1e9 / 2^18)
+	return (k*extNsPerS + (1<<18 - 1)) >> 18
 }
 
-// instant draws a Unix-nanosecond instant; class selects where it concentrates.
-func instant(r *Rand) (int64, string) {
-	inEra := func() int64 { return int64(r.U64() % uint64(eraEndNs)) }
+// extInstant draws a Unix-nanosecond extInstant; class selects where it concentrates.
+func extInstant(r *Rand) (int64, string) {
+	inEra := func() int64 { return int64(r.U64() % uint64(extEraEndNs)) }
 	small := func() int64 {
 		switch r.Intn(4) {
 		case 0:
@@ -455,54 +455,54 @@ func instant(r *Rand) (int64, string) {
 		case 2:
 			return int64(r.Range(-1000000, 1000000))
 		default:
-			return int64(r.U64()%uint64(2*nsPerS)) - nsPerS // within +-1 s
+			return int64(r.U64()%uint64(2*extNsPerS)) - extNsPerS // within +-1 s
 		}
 	}
 	switch r.Intn(10) {
 	case 0, 1: // around a 64 s wrap point of the 24-bit field (NTP seconds = Unix seconds + 64*34515450)
-		k := int64(r.U64() % uint64(eraEndNs/wrap24Ns+1))
-		return k*wrap24Ns + small(), "wrap64"
+		k := int64(r.U64() % uint64(extEraEndNs/extWrap24Ns+1))
+		return k*extWrap24Ns + small(), "wrap64"
 	case 2: // around a whole second
-		return inEra()/nsPerS*nsPerS + small(), "second"
+		return inEra()/extNsPerS*extNsPerS + small(), "second"
 	case 3: // exactly representable fractions: j/512 s = j * 1953125 ns have f = j * 2^23
-		return inEra()/nsPerS*nsPerS + int64(r.Intn(512))*1953125 + int64(r.Range(-1, 1)), "dyadic"
+		return inEra()/extNsPerS*extNsPerS + int64(r.Intn(512))*1953125 + int64(r.Range(-1, 1)), "dyadic"
 	case 4: // at, just before, just after a point of the 2^-18 s grid
-		return inEra()/nsPerS*nsPerS + gridNs(int64(r.Intn(1<<18))) + int64(r.Range(-1, 1)), "grid18"
+		return inEra()/extNsPerS*extNsPerS + extGridNs(int64(r.Intn(1<<18))) + int64(r.Range(-1, 1)), "grid18"
 	case 5: // the ends of the era
 		switch r.Intn(3) {
 		case 0:
 			return int64(r.Range(0, 5)) + int64(r.Intn(2))*small(), "era-start"
 		case 1:
-			return eraEndNs - 1 - int64(r.Range(0, 5)) - int64(r.Intn(2))*(small()+nsPerS), "era-end"
+			return extEraEndNs - 1 - int64(r.Range(0, 5)) - int64(r.Intn(2))*(small()+extNsPerS), "era-end"
 		default:
-			return eraEndNs - 64*nsPerS + small(), "era-end-64s"
+			return extEraEndNs - 64*extNsPerS + small(), "era-end-64s"
 		}
 	default:
 		return inEra(), "random"
 	}
 }
 
-func clampInstant(t int64) int64 {
+func extClampInstant(t int64) int64 {
 	if t < 0 {
 		return 0
 	}
-	if t >= eraEndNs {
-		return eraEndNs - 1
+	if t >= extEraEndNs {
+		return extEraEndNs - 1
 	}
 	return t
 }
 
 func init() {
-	register("c17.audio.m", "C17", genMarshal(audioCodec))
-	register("c17.audio.u", "C17", genUnmarshal(audioCodec))
-	register("c17.tcc.m", "C17", genMarshal(tccCodec))
-	register("c17.tcc.u", "C17", genUnmarshal(tccCodec))
-	register("c17.playout.m", "C17", genMarshal(playoutCodec))
-	register("c17.playout.u", "C17", genUnmarshal(playoutCodec))
-	register("c17.abssend.m", "C17", genMarshal(absSendCodec))
-	register("c17.abssend.u", "C17", genUnmarshal(absSendCodec))
-	register("c17.abscapture.m", "C17", genMarshal(absCaptureCodec))
-	register("c17.abscapture.u", "C17", genUnmarshal(absCaptureCodec))
+	register("c17.audio.m", "C17", extGenMarshal(extAudioCodec))
+	register("c17.audio.u", "C17", extGenUnmarshal(extAudioCodec))
+	register("c17.tcc.m", "C17", extGenMarshal(extTccCodec))
+	register("c17.tcc.u", "C17", extGenUnmarshal(extTccCodec))
+	register("c17.playout.m", "C17", extGenMarshal(extPlayoutCodec))
+	register("c17.playout.u", "C17", extGenUnmarshal(extPlayoutCodec))
+	register("c17.abssend.m", "C17", extGenMarshal(extAbsSendCodec))
+	register("c17.abssend.u", "C17", extGenUnmarshal(extAbsSendCodec))
+	register("c17.abscapture.m", "C17", extGenMarshal(extAbsCaptureCodec))
+	register("c17.abscapture.u", "C17", extGenUnmarshal(extAbsCaptureCodec))
 
 	// c18.capture <t> => ok <Timestamp> <CaptureTime().UnixNano()>
 	register("c18.capture", "C18", func(x *Ctx) {
@@ -510,7 +510,7 @@ func init() {
 			x.Case(func(c *Case) {
 				t := mk(c)
 				c.I.I64(t)
-				if t < 0 || t >= eraEndNs {
+				if t < 0 || t >= extEraEndNs {
 					c.Tag("outside-era")
 					c.Trivial()
 				}
@@ -525,7 +525,7 @@ func init() {
 					return
 				}
 				c.O.Ok().U64(ts).I64(back)
-				if t >= 0 && t < eraEndNs {
+				if t >= 0 && t < extEraEndNs {
 					if back == t {
 						c.Tag("exact")
 					} else {
@@ -534,23 +534,23 @@ func init() {
 				}
 			})
 		}
-		for _, t := range []int64{0, 1, 2, 999999999, nsPerS, nsPerS + 1, eraEndNs - 2, eraEndNs - 1, eraEndNs, eraEndNs + 1,
-			-1, -nsPerS, math.MinInt64, math.MaxInt64, 488365200 * nsPerS, 946702799*nsPerS + 500000, 1553693970*nsPerS + 8675309} {
+		for _, t := range []int64{0, 1, 2, 999999999, extNsPerS, extNsPerS + 1, extEraEndNs - 2, extEraEndNs - 1, extEraEndNs, extEraEndNs + 1,
+			-1, -extNsPerS, math.MinInt64, math.MaxInt64, 488365200 * extNsPerS, 946702799*extNsPerS + 500000, 1553693970*extNsPerS + 8675309} {
 			t := t
 			one(func(*Case) int64 { return t })
 		}
 		for j := int64(0); j < 512; j++ { // every exactly representable fraction of a second
 			j := j
-			one(func(*Case) int64 { return 1700000000*nsPerS + j*1953125 })
+			one(func(*Case) int64 { return 1700000000*extNsPerS + j*1953125 })
 		}
 		for i, n := 0, x.N(60000, 3000000); i < n; i++ {
 			one(func(c *Case) int64 {
 				if c.R.Intn(16) == 0 { // outside the theorem's range: correspondence only
 					return int64(c.R.U64())
 				}
-				t, tag := instant(c.R)
+				t, tag := extInstant(c.R)
 				c.Tag(tag)
-				return clampInstant(t)
+				return extClampInstant(t)
 			})
 		}
 	})
@@ -569,13 +569,13 @@ func init() {
 				c.O.Ok().I64(back)
 			})
 		}
-		for _, e := range edge64 {
+		for _, e := range extEdge64 {
 			e := e
 			one(func(*Case) uint64 { return e })
 			one(func(*Case) uint64 { return 0x83AA7E80<<32 + e>>32 })
 		}
 		for i, n := 0, x.N(20000, 1000000); i < n; i++ {
-			one(func(c *Case) uint64 { return randU64(c.R) })
+			one(func(c *Case) uint64 { return extRandU64(c.R) })
 		}
 	})
 
@@ -585,7 +585,7 @@ func init() {
 			x.Case(func(c *Case) {
 				t, d := mk(c)
 				c.I.I64(t).I64(d)
-				if d <= -maxOffset || d >= maxOffset {
+				if d <= -extMaxOffset || d >= extMaxOffset {
 					c.Tag("offset-out-of-range")
 					c.Trivial()
 				} else if d < 0 {
@@ -622,31 +622,31 @@ func init() {
 				}
 			})
 		}
-		edges := []int64{0, 1, 2, 3, 4, 5, nsPerS - 1, nsPerS, nsPerS + 1, 1250000000, 250000000, 232830643, 232830644,
-			maxOffset - 2, maxOffset - 1, maxOffset, maxOffset + 1, math.MaxInt64, math.MaxInt64 - 1}
+		edges := []int64{0, 1, 2, 3, 4, 5, extNsPerS - 1, extNsPerS, extNsPerS + 1, 1250000000, 250000000, 232830643, 232830644,
+			extMaxOffset - 2, extMaxOffset - 1, extMaxOffset, extMaxOffset + 1, math.MaxInt64, math.MaxInt64 - 1}
 		for _, d := range edges {
 			d := d
-			one(func(*Case) (int64, int64) { return 1700000000 * nsPerS, d })
-			one(func(*Case) (int64, int64) { return 1700000000 * nsPerS, -d })
+			one(func(*Case) (int64, int64) { return 1700000000 * extNsPerS, d })
+			one(func(*Case) (int64, int64) { return 1700000000 * extNsPerS, -d })
 		}
 		one(func(*Case) (int64, int64) { return 0, math.MinInt64 })
 		for i, n := 0, x.N(60000, 3000000); i < n; i++ {
 			one(func(c *Case) (int64, int64) {
-				t, _ := instant(c.R)
+				t, _ := extInstant(c.R)
 				var d int64
 				switch c.R.Intn(8) {
 				case 0: // whole seconds and their neighbours
-					d = int64(c.R.U64()%(1<<31))*nsPerS + int64(c.R.Range(-2, 2))
+					d = int64(c.R.U64()%(1<<31))*extNsPerS + int64(c.R.Range(-2, 2))
 				case 1: // small
 					d = int64(c.R.U64() % uint64(c.R.Pick(10, 1000, 1000000, 2000000000)))
 				case 2: // near the bound
-					d = maxOffset - 1 - int64(c.R.U64()%uint64(c.R.Pick(3, 1000, 2000000000)))
+					d = extMaxOffset - 1 - int64(c.R.U64()%uint64(c.R.Pick(3, 1000, 2000000000)))
 				case 3: // anything, mostly out of range
-					return clampInstant(t), int64(c.R.U64())
+					return extClampInstant(t), int64(c.R.U64())
 				case 4: // exactly representable fractions
-					d = int64(c.R.U64()%(1<<31))*nsPerS + int64(c.R.Intn(512))*1953125
+					d = int64(c.R.U64()%(1<<31))*extNsPerS + int64(c.R.Intn(512))*1953125
 				default: // uniform over the range, and log-uniform
-					d = int64(c.R.U64() % uint64(maxOffset))
+					d = int64(c.R.U64() % uint64(extMaxOffset))
 					if c.R.Bool() {
 						d >>= uint(c.R.Intn(62))
 					}
@@ -654,7 +654,7 @@ func init() {
 				if c.R.Bool() {
 					d = -d
 				}
-				return clampInstant(t), d
+				return extClampInstant(t), d
 			})
 		}
 	})
@@ -685,14 +685,14 @@ func init() {
 			})
 		}
 		one(func(*Case) *int64 { return nil })
-		for _, e := range edge64 {
+		for _, e := range extEdge64 {
 			e := int64(e)
 			f := -e
 			one(func(*Case) *int64 { return &e })
 			one(func(*Case) *int64 { return &f })
 		}
 		for i, n := 0, x.N(20000, 1000000); i < n; i++ {
-			one(func(c *Case) *int64 { v := int64(randU64(c.R)); return &v })
+			one(func(c *Case) *int64 { v := int64(extRandU64(c.R)); return &v })
 		}
 	})
 
@@ -702,16 +702,16 @@ func init() {
 			x.Case(func(c *Case) {
 				send, delay := mk(c)
 				c.I.I64(send).I64(delay)
-				if send < 0 || send >= eraEndNs || delay < 0 || delay > maxDelay {
+				if send < 0 || send >= extEraEndNs || delay < 0 || delay > extMaxDelay {
 					c.Tag("outside-hypotheses")
 					c.Trivial()
 				} else {
-					if send/wrap24Ns != (send+delay)/wrap24Ns {
+					if send/extWrap24Ns != (send+delay)/extWrap24Ns {
 						c.Tag("crosses-64s-wrap")
 					} else {
 						c.Tag("same-64s-period")
 					}
-					if send+delay >= eraEndNs {
+					if send+delay >= extEraEndNs {
 						c.Tag("receive-after-era-end")
 					}
 				}
@@ -735,7 +735,7 @@ func init() {
 					return
 				}
 				c.O.Ok().U64(ts).U64(ts24).I64(est)
-				if send >= 0 && send < eraEndNs && delay >= 0 && delay <= maxDelay {
+				if send >= 0 && send < extEraEndNs && delay >= 0 && delay <= extMaxDelay {
 					switch e := send - est; {
 					case e == 0:
 						c.Tag("error=0ns")
@@ -747,9 +747,9 @@ func init() {
 				}
 			})
 		}
-		delays := []int64{0, 1, 2, 3814, 3815, 3816, nsPerS, 32 * nsPerS, maxDelay - 1, maxDelay, maxDelay + 1, 64 * nsPerS, 64*nsPerS + 1, -1}
-		sends := []int64{1700000000000007629, 1700000000000003814, 0, 1, 63*nsPerS + 999999999, 64 * nsPerS, 64*nsPerS + 1, 1700000000 * nsPerS, 1700000000*nsPerS + 3814, 1700000000*nsPerS + 3815,
-			26562500 * wrap24Ns, 26562500*wrap24Ns - 1, 26562500*wrap24Ns + 1, eraEndNs - 1, eraEndNs - 64*nsPerS, eraEndNs - 64*nsPerS + 3815, eraEndNs, -1}
+		delays := []int64{0, 1, 2, 3814, 3815, 3816, extNsPerS, 32 * extNsPerS, extMaxDelay - 1, extMaxDelay, extMaxDelay + 1, 64 * extNsPerS, 64*extNsPerS + 1, -1}
+		sends := []int64{1700000000000007629, 1700000000000003814, 0, 1, 63*extNsPerS + 999999999, 64 * extNsPerS, 64*extNsPerS + 1, 1700000000 * extNsPerS, 1700000000*extNsPerS + 3814, 1700000000*extNsPerS + 3815,
+			26562500 * extWrap24Ns, 26562500*extWrap24Ns - 1, 26562500*extWrap24Ns + 1, extEraEndNs - 1, extEraEndNs - 64*extNsPerS, extEraEndNs - 64*extNsPerS + 3815, extEraEndNs, -1}
 		for _, s := range sends {
 			for _, d := range delays {
 				s, d := s, d
@@ -758,8 +758,8 @@ func init() {
 		}
 		for i, n := 0, x.N(100000, 5000000); i < n; i++ {
 			one(func(c *Case) (int64, int64) {
-				send, tag := instant(c.R)
-				send = clampInstant(send)
+				send, tag := extInstant(c.R)
+				send = extClampInstant(send)
 				c.Tag("send:" + tag)
 				var delay int64
 				switch c.R.Intn(10) {
@@ -768,26 +768,26 @@ func init() {
 				case 1:
 					delay = int64(c.R.Intn(8000))
 				case 2:
-					delay = maxDelay - int64(c.R.Intn(3))
+					delay = extMaxDelay - int64(c.R.Intn(3))
 				case 3:
-					delay = maxDelay - int64(c.R.Intn(8000))
+					delay = extMaxDelay - int64(c.R.Intn(8000))
 				case 4: // receive lands at, just before or just after the next wrap of the field
-					delay = wrap24Ns - send%wrap24Ns + int64(c.R.Range(-4000, 4000))
-				case 5: // receive lands on the grid point of the send instant one period later (the strict `<`)
-					delay = wrap24Ns - int64(c.R.Intn(8000))
+					delay = extWrap24Ns - send%extWrap24Ns + int64(c.R.Range(-4000, 4000))
+				case 5: // receive lands on the grid point of the send extInstant one period later (the strict `<`)
+					delay = extWrap24Ns - int64(c.R.Intn(8000))
 				case 6: // outside the hypotheses: correspondence only
-					delay = int64(c.R.U64()%uint64(130*nsPerS)) - nsPerS
+					delay = int64(c.R.U64()%uint64(130*extNsPerS)) - extNsPerS
 				case 7: // whole seconds
-					delay = int64(c.R.Intn(64)) * nsPerS
+					delay = int64(c.R.Intn(64)) * extNsPerS
 				default:
-					delay = int64(c.R.U64() % uint64(maxDelay+1))
+					delay = int64(c.R.U64() % uint64(extMaxDelay+1))
 				}
 				if c.R.Intn(6) != 0 { // keep most cases inside the hypotheses
 					if delay < 0 {
 						delay = 0
 					}
-					if delay > maxDelay {
-						delay = maxDelay
+					if delay > extMaxDelay {
+						delay = extMaxDelay
 					}
 				}
 				return send, delay
@@ -799,7 +799,7 @@ func init() {
 	register("c18.estraw", "C18", func(x *Ctx) {
 		for i, n := 0, x.N(30000, 2000000); i < n; i++ {
 			x.Case(func(c *Case) {
-				ts := randU64(c.R)
+				ts := extRandU64(c.R)
 				if c.R.Bool() {
 					ts &= 0xFFFFFF
 				}
@@ -807,7 +807,7 @@ func init() {
 				if c.R.Intn(4) == 0 {
 					recv = int64(c.R.U64())
 				} else {
-					recv, _ = instant(c.R)
+					recv, _ = extInstant(c.R)
 				}
 				c.I.U64(ts).I64(recv)
 				var est int64
